@@ -4,6 +4,7 @@ import (
 	"bytes"
 	"crypto/sha256"
 	"fmt"
+	"io"
 	"math/big"
 	"sort"
 	"strings"
@@ -55,6 +56,9 @@ const (
 	bOnlyZero   = nEntryKinds + 3
 	bOnlyGen    = nEntryKinds + 4
 	nBatchOps   = nEntryKinds + 5
+	// used by the size sweep only (not members of the history alphabet): nil reader = crypto/rand, the documented default (T12)
+	bVerifyNil = nBatchOps
+	bOnlyNil   = nBatchOps + 1
 )
 
 func (e *env) batchOpName(pool []*poolEntry, o int) string {
@@ -374,19 +378,20 @@ func (e *env) batchChecks() {
 	})
 
 	// ---- sizes on both sides of the multiscalar thresholds (2n+1 terms: 189/191 at n = 94/95, 501 at n = 250)
-	sizes := []int{0, 1, 2, 94, 95, 96, 250}
-	patterns := []string{"all-valid", "bad-first", "bad-last", "wrong-key-middle", "uninit-sig-middle", "bad-R-last"}
+	// (T14) the Straus -> Pippenger switch (190 terms, n = 95) is crossed from both sides in EVERY configuration
+	// (the generic Pippenger only runs without AVX2), with valid batches and with ONE invalid member that lies
+	// beyond the threshold (index 95, last) or before it, incl. the pair whose errors cancel in an unweighted sum.
+	sizes := []int{0, 1, 2, 93, 94, 95, 96, 97, 128, 249, 250} // 249 / 250: 499 / 501 terms (Pippenger window switch)
+	patterns := []string{"all-valid", "bad-first", "bad-last", "wrong-key-middle", "uninit-sig-middle", "bad-R-last", "bad-at-94", "bad-at-95", "mutated-s-at-95", "cancelling-pair-across-95"}
 	c.Par("batch-size", len(sizes)*len(patterns), func(w *mc.W, i int) {
 		n, pat := sizes[i/len(patterns)], patterns[i%len(patterns)]
 		what := fmt.Sprintf("size %d pattern %s", n, pat)
-		class := "batch-size/" + map[bool]string{true: "all-valid", false: "with-invalid"}[pat == "all-valid"]
-		counted := false
-		defer guard(w, &counted, class, what)
-		w.Eval(class, n > 2)
-		counted = true
-		fail := func(key, msg string) { w.Fail(key, msg+" | "+what, map[string]string{"case": what}) }
-		bv := sr25519.NewBatchVerifierWithCapacity(n)
-		m := &batchModel{}
+		if n == 249 && pat != "all-valid" && pat != "bad-last" && pat != "mutated-s-at-95" {
+			return // the lower side of the window switch with three patterns only (cost)
+		}
+		// the members first (reference side), then the class, then the implementation
+		var members []*poolEntry
+		allValid := n > 0
 		for k := 0; k < n; k++ {
 			p := valids[k%len(valids)]
 			switch {
@@ -398,17 +403,46 @@ func (e *env) batchChecks() {
 				p = pool[eUninitSig]
 			case pat == "bad-R-last" && k == n-1:
 				p = pool[eBadR]
+			case pat == "bad-at-94" && k == 94, pat == "bad-at-95" && k == 95:
+				p = pool[eWrongMessage]
+			case pat == "mutated-s-at-95" && k == 95:
+				p = pool[eMutatedS]
+			case pat == "cancelling-pair-across-95" && n > 95 && k == 1:
+				p = pool[eMutatedS]
+			case pat == "cancelling-pair-across-95" && n > 95 && k == n-1:
+				p = pool[eCancelS]
 			}
+			members = append(members, p)
+			allValid = allValid && p.valid
+		}
+		class := "batch-size/" + map[bool]string{true: "all-valid", false: "with-invalid"}[allValid]
+		if n >= 95 {
+			class += "-pippenger-sized"
+		}
+		counted := false
+		defer guard(w, &counted, class, what)
+		w.Eval(class, n > 2)
+		counted = true
+		fail := func(key, msg string) { w.Fail(key, msg+" | "+what, map[string]string{"case": what}) }
+		bv := sr25519.NewBatchVerifierWithCapacity(n)
+		m := &batchModel{}
+		for _, p := range members {
 			bv.Add(p.pk, p.st, p.sig)
 			m.entries = append(m.entries, p)
 		}
 		checkState(bv, m, fail)
-		for _, o := range []int{bVerifyGen, bOnlyGen, bVerifyZero, bOnlyZero, bReset, bOnlyZero, bAdd0 + eValid2, bVerifyGen, bOnlyGen} {
+		ops := []int{bVerifyGen, bOnlyGen, bVerifyZero, bOnlyZero, bVerifyNil, bOnlyNil, bReset, bOnlyZero, bAdd0 + eValid2, bVerifyGen, bOnlyGen}
+		if n >= 128 { // a Verify of an invalid batch falls back to n single verifications: fewer of them for the big sizes
+			ops = []int{bVerifyGen, bOnlyZero, bOnlyNil, bReset, bOnlyZero, bAdd0 + eValid2, bVerifyGen}
+		} else if n >= 93 {
+			ops = []int{bVerifyGen, bOnlyGen, bOnlyZero, bVerifyNil, bOnlyNil, bReset, bOnlyZero, bAdd0 + eValid2, bVerifyGen, bOnlyGen}
+		}
+		for _, o := range ops {
 			e.applyBatchOp(bv, m, pool, o, fail)
 			checkState(bv, m, fail)
 		}
 	})
-	e.requires = append(e.requires, req{"batch-hist/verify-true", 100}, req{"batch-hist/verify-false", 100}, req{"batch-size/all-valid", 7})
+	e.requires = append(e.requires, req{"batch-hist/verify-true", 100}, req{"batch-hist/verify-false", 100}, req{"batch-size/all-valid", 5}, req{"batch-size/all-valid-pippenger-sized", 6}, req{"batch-size/with-invalid-pippenger-sized", 30})
 	c.Rep.Extra["batch_histories"] = map[string]int64{"histories": acct.traces, "operation_steps": acct.transitions, "distinct_states": seen.size()}
 }
 
@@ -423,13 +457,16 @@ func (e *env) applyBatchOp(bv *sr25519.BatchVerifier, m *batchModel, pool []*poo
 			fail("BatchVerifier.Reset/return", "Reset did not return its receiver")
 		}
 		m.entries = nil
-	case o == bVerifyZero, o == bVerifyGen:
-		rd := rdZero
-		if o == bVerifyGen {
-			rd = rdGeneric
+	case o == bVerifyZero, o == bVerifyGen, o == bVerifyNil:
+		var rdr io.Reader = mkReader(rdZero)
+		switch o {
+		case bVerifyGen:
+			rdr = mkReader(rdGeneric)
+		case bVerifyNil:
+			rdr = nil // documented default: crypto/rand (only the verdicts are compared)
 		}
 		before, _, _, _ := sr25519.VerifBatchState(bv)
-		all, each := bv.Verify(mkReader(rd))
+		all, each := bv.Verify(rdr)
 		wantAll, wantEach := m.verdicts()
 		if all != wantAll {
 			fail("BatchVerifier.Verify/summary", fmt.Sprintf("Verify returned %v, single verification of the entries gives %v", all, wantAll))
@@ -448,12 +485,24 @@ func (e *env) applyBatchOp(bv *sr25519.BatchVerifier, m *batchModel, pool []*poo
 		if fmt.Sprint(before) != fmt.Sprint(after) {
 			fail("BatchVerifier.Verify/mutates", "Verify modified the batch")
 		}
-	default:
-		rd := rdZero
-		if o == bOnlyGen {
-			rd = rdGeneric
+		// (T11) the result vector belongs to the caller: overwriting it must not influence the verifier
+		if len(each) > 0 && len(each) <= 4 {
+			for k := range each {
+				each[k] = !each[k]
+			}
+			if all2, each2 := bv.Verify(mkReader(rdZero)); all2 != wantAll || len(each2) != len(wantEach) || (len(each2) > 0 && each2[0] != wantEach[0]) {
+				fail("BatchVerifier.Verify/handed-out", "overwriting the per-entry result slice returned by Verify changed the next Verify")
+			}
 		}
-		got := bv.VerifyBatchOnly(mkReader(rd))
+	default:
+		var rdr io.Reader = mkReader(rdZero)
+		switch o {
+		case bOnlyGen:
+			rdr = mkReader(rdGeneric)
+		case bOnlyNil:
+			rdr = nil
+		}
+		got := bv.VerifyBatchOnly(rdr)
 		wantAll, _ := m.verdicts()
 		if got != wantAll {
 			fail("BatchVerifier.VerifyBatchOnly", fmt.Sprintf("VerifyBatchOnly returned %v, single verification of the entries gives %v", got, wantAll))
